@@ -118,6 +118,9 @@ DATA_TPLS = [
     "{{ rec('sl', pairs|sum(start=[])) }}{{ rec('s0', pairs|sum(start=lst0)) }}{{ rec('after', lst0) }}",
     "{{ rec('st', tups|sum(start=[])) }}", "{{ rec('stt', tups|sum(start=())) }}{{ rec('jl', pairs|map('join', '-')|join(lst0|join)) }}",
     "{{ rec('b', it|batch(2, lst0)|map('list')|list) }}{{ rec('after', lst0) }}{{ rec('sl', it|slice(2, lst0)|map('list')|list) }}{{ rec('after', lst0) }}",
+    # the result of a filter that builds a list is the template's own: changing it must not show through the data (LAST entry: see NESTED_REUSE)
+    "{% set w = it|list %}{{ rec('ap', w.append(a)) }}{{ rec('w', w) }}{{ rec('it', it|list) }}{% set r = lst0|list %}{{ rec('rv', r.reverse(), r.pop()) }}{{ rec('l0', lst0) }}"
+    "{% set m = it|map('abs')|list %}{{ rec('mp', m.append(b)) }}{{ rec('it2', it|list, it|length) }}",
 ]
 
 
@@ -158,7 +161,7 @@ def data_ok(xs: List[int], a: int, b: int, q: int) -> bool:
     return s == a1 and s == a2 and s3 == a3 and s == s3
 
 
-NESTED_REUSE = {17, 18, 22}
+NESTED_REUSE = {17, 18, 22, len(DATA_TPLS) - 1}
 
 
 # ---------------------------------------------------------------- (3) entry points needing an event loop (native)
@@ -278,7 +281,8 @@ def conditions(tier, seed):
                         witnesses=[[[True, False, True, False], [5, 1], [2], 3, 7], [[False] * 4, [], [], 0, 0]],
                         bounds="one generated program: sync render/generate vs driven render_async/generate_async, any branch bools, int lists <= 2, values"))
     for ti in range(len(DATA_TPLS)):
-        for cls in (classes if th else [classes[(ti + seed) % 3]]):
+        # the last template mutates a filter result: the immutable sandbox refuses that in both worlds, so quick uses the plain class there
+        for cls in (classes if th else ["plain"] if ti == len(DATA_TPLS) - 1 else [classes[(ti + seed) % 3]]):
             out.append(Cond(f"data[{ti}][{cls}] {DATA_TPLS[ti][:50]}", "data_ok", mode="A", param={"kind": "data", "tpl": ti, "cls": cls}, timeout=to,
                             witnesses=[[[3, -1, 2], 1, 2, 1], [[], 0, 0, 0], [[4, 4, 7], 4, 5, 2]],
                             bounds="int list <= 3 as list / generator / async generator, sync function vs coroutine function, any a, b, loop-attribute order q"))
